@@ -815,3 +815,20 @@ def any_loop(fn: FunctionInfo, var: str) -> T.Optional[ast.AST]:
                 return ast.fix_missing_locations(ast.Call(func=ast.Name(id="any", ctx=ast.Load()), args=[gen], keywords=[]))
     return None
 
+
+
+# --------------------------------------------------------------------------- pinned calendar
+def pinned_calendar_ctor(prog: Program, incr_fn: FunctionInfo, cal_class: str, vinfo_var: str = "old_vinfo") -> T.Optional[T.Tuple[FunctionInfo, ast.Call, str]]:
+    """Where the calendar of the parsed version is rebuilt for --pin-date: (function holding the <cal_class>(...) constructor,
+    the constructor call, text of the version-info expression its arguments read from).  The constructor sits in a helper
+    called with the parsed version, or directly in incr."""
+    for c, t in prog.calls_in(incr_fn):
+        if t.kind == "func" and t.fn is not None and [unparse(x) for x in c.args] == [vinfo_var] and t.fn.returns is not None and "CalendarInfo" in unparse(t.fn.returns):
+            ctor = [x for x in ast.walk(t.fn.node) if isinstance(x, ast.Call) and unparse(x.func).endswith(cal_class)]
+            if len(ctor) == 1 and t.fn.params:
+                return t.fn, ctor[0], t.fn.params[0]
+    direct = [x for x in ast.walk(incr_fn.node) if isinstance(x, ast.Call) and unparse(x.func).endswith(cal_class)
+              and any(isinstance(a, ast.Attribute) and unparse(a.value) == vinfo_var for a in ast.walk(x))]
+    if len(direct) == 1:
+        return incr_fn, direct[0], vinfo_var
+    return None
